@@ -44,22 +44,35 @@ def _within(nodes, line, col):
     return False
 
 
-def try_raise_point_case(tree, read):
-    """The read is affected by the join after / the handlers of a try statement whose body lacks a raising call
-    at its first or at its last statement, and the try body binds the identifier."""
+def try_raise_point_case(tree, read, info=None):
+    """supp's handler regions always join 'before the try' and 'end of the try body' (and the region after the try
+    joins the else/body end with every handler end), whatever the body can actually do.  The case: a try statement
+    whose body lacks a raising call at its first or at its last statement (so one of those edges does not exist - or,
+    with no raising call at all, the handlers are unreachable), where the identifier is bound inside the statement or
+    the listed binding lies inside it or flows through it (binding before the statement, read after its start)."""
     line, col, name = read['line'], read['col'], read['name']
+    pos = (line, col)
+    site = tuple(info['site'][:2]) if info and info.get('site') else None
     for t in ast.walk(tree):
         if not isinstance(t, ast.Try) or not t.handlers:
             continue
         both = _is_m_call(t.body[0]) and _is_m_call(t.body[-1])
         if both:
             continue
-        if not _binds(t.body, name) and not any(_binds(h.body, name) for h in t.handlers):
-            continue
-        in_handler = any(_within(h.body, line, col) for h in t.handlers)
-        in_final = _within(t.finalbody, line, col)
-        after = (line, col) > (t.end_lineno, t.end_col_offset)
-        if in_handler or in_final or after:
+        tstart, tend = (t.lineno, t.col_offset), (t.end_lineno, t.end_col_offset)
+        parts = t.body + [h for h in t.handlers] + t.orelse + t.finalbody
+        bound_inside = _binds(t.body, name) or any(_binds(h.body, name) for h in t.handlers) or _binds(t.orelse, name)
+        site_inside = site is not None and tstart <= site <= tend
+        site_before = site is not None and site < tstart
+        read_after_start = pos >= tstart
+        in_loop = False
+        for l in ast.walk(tree):
+            if isinstance(l, (ast.For, ast.While)) and (l.lineno, l.col_offset) <= tstart and tend <= (l.end_lineno, l.end_col_offset) \
+                    and (l.lineno, l.col_offset) <= pos <= (l.end_lineno, l.end_col_offset):
+                in_loop = True          # the read can be reached from the statement through the back edge
+        if (bound_inside or site_inside) and (read_after_start or in_loop):
+            return True
+        if site_before and bound_inside and (read_after_start or in_loop):
             return True
     return False
 
@@ -110,6 +123,15 @@ def terminated_branch_case(tree, read, kind, info):
             dead = l[i + 1:]
             if site and dead and _start(dead[0]) <= site <= lend:
                 return True                                          # a binding in dead code
+            if isinstance(s, ast.Try) and field == 'body' and s.orelse and site \
+                    and _start(s.orelse[0]) <= site <= (s.orelse[-1].end_lineno, s.orelse[-1].end_col_offset):
+                return True                                          # the else clause of a try whose body always leaves
+            if site and lstart <= site <= lend:
+                # a binding in a list that leaves: it cannot reach anything outside the list, nor (through a loop)
+                # statements of the list at or before its own
+                st = [x for x in l if _start(x) <= site <= (x.end_lineno, x.end_col_offset)]
+                if not (lstart <= pos <= lend) or (st and pos <= (st[0].end_lineno, st[0].end_col_offset)):
+                    return True
             if isinstance(s, ast.FunctionDef):
                 continue
             if pos > send and (site is None or site <= send):
@@ -138,7 +160,7 @@ def classify(prop, kind, text, tree, read, info):
         if annassign_own_target(tree, read):
             return 'annassign-annotation-reads-own-target'
     if prop == 'C03' and kind in ('phantom-definition', 'undefined-marker-but-always-bound', 'never-bound-not-flagged'):
-        if try_raise_point_case(tree, read):
+        if try_raise_point_case(tree, read, info):
             return 'try-join-assumes-raise-at-first-and-last-statement'
         if terminated_branch_case(tree, read, kind, info):
             return 'return-terminated-branch-joins-continuation'
